@@ -445,7 +445,8 @@ func c07Wire(c *ctx, which string) {
 	}
 	cfgs := []c07HdrCfg{
 		{Name: "A", ClientIP: "X-Client-Ip", TLSHeader: "X-Tls", TLSValue: "on", LocalIP: "9.9.9.9", STSMaxAge: 31536000, STSSub: true, STSPre: true},
-		{Name: "C", ClientIP: "x-custom", TLSHeader: "X-SSL", TLSValue: "1"}, // spellings that are not in canonical MIME header form
+		// spellings that are not in canonical MIME header form; an HSTS max-age of 100 years (the option is an int, the value does not fit 32 bits)
+		{Name: "C", ClientIP: "x-custom", TLSHeader: "X-SSL", TLSValue: "1", STSMaxAge: 3153600000},
 	}
 	if c.thorough() {
 		cfgs = append(cfgs, c07HdrCfg{Name: "B", STSMaxAge: 600}, c07HdrCfg{Name: "D", TLSHeader: "x-forwarded-SSL", TLSValue: "on", ClientIP: "X-CLIENT-ADDR"})
@@ -553,6 +554,13 @@ func c07One(c *ctx, which string, rg *c07Rig, q *c07Req, unrouted *atomic.Int64)
 	}
 	if which == "c20" {
 		if q.Route >= 0 && resp.Err == nil {
+			// the number in a generated header (i32toa on the request path) is the configured one
+			if sts := resp.Get("Strict-Transport-Security"); len(sts) > 0 && rg.hc.STSMaxAge > 0 {
+				c.R.Count("hsts_headers_compared", 1)
+				if num, _, _ := strings.Cut(strings.TrimPrefix(sts[0], "max-age="), ";"); num != strconv.Itoa(rg.hc.STSMaxAge) {
+					viol("c20", "hsts-number-rendered-wrong", fmt.Sprintf("Strict-Transport-Security %q, configured max-age %d (strconv.Itoa gives %q)", sts, rg.hc.STSMaxAge, strconv.Itoa(rg.hc.STSMaxAge)))
+				}
+			}
 			rg.logged.Store(q.ID, &c20Expect{Status: resp.Status, BodyLen: len(resp.Body), Method: q.Method, Service: fmt.Sprintf("r%d", q.Route), T0: t0, T1: time.Now(), Describe: c07Describe(q), Host: q.HostHdr, URI: c20Target(q), Scheme: c20Scheme(q)})
 		}
 		return
